@@ -132,6 +132,8 @@ TM_SEEDS = "0,7,8,13,16,17,18,6"
 CHECKS["C04"] = dict(
     quick=[
         R("h_loop", "bound=2 seeds=%s nfd=1 ntm=3 ntk=1 nev=0 horizon=14 ops=%s rules=timer-early,timer-twice,oversleep,stale-callback,oneshot-registered,%s" % (TM_SEEDS, TM_OPS, ABN)),
+        # a population large enough for interior heap positions: 7 timers, any two unregistered / re-armed
+        R("h_loop", "bound=2 seeds=25 nfd=0 ntm=7 ntk=0 nev=0 horizon=12 ops=leave,tmunreg,tmreg rules=timer-early,timer-twice,oversleep,stale-callback,oneshot-registered,%s" % ABN),
     ],
     thorough=[
         R("h_loop", "bound=3 seeds=%s nfd=1 ntm=3 ntk=1 nev=0 horizon=14 ops=%s rules=timer-early,timer-twice,oversleep,stale-callback,oneshot-registered,%s" % (TM_SEEDS, TM_OPS, ABN)),
